@@ -167,6 +167,10 @@ fn signature(rec: &J, why: &str) -> Vec<String> {
   if op == "powint" && adj(&rec["a"]) < -6143 && rec["n"].as_i64().unwrap_or(0) < 0 {
     return vec!["powint:subnormal-base-negative-exponent".to_string()];
   }
+  // the same defect met through the general power (the integer exponent written with an exponent of its own: -15E3)
+  if op == "pow" && adj(&rec["a"]) < -6143 && rec["b"]["s"].as_i64().unwrap_or(0) == 1 && rec["b"]["e"].as_i64().unwrap_or(-1) >= 0 {
+    return vec!["powint:subnormal-base-negative-exponent".to_string()];
+  }
   if op == "modulo" && adj(&rec["a"]) - adj(&rec["b"]) >= 33 {
     return vec!["modulo:integer-quotient-exceeds-34-digits".to_string()];
   }
